@@ -12,3 +12,13 @@ OBLIGATIONS = [
         bounds_q="one Block + exit; input 8 bytes, output 12 bytes; <= 3 decoder calls; <= 2 unproductive waits"),
 ]
 OBLIGATIONS += reuse("C08", r"outq_")          # shared output queue: in-order delivery, accounting
+OBLIGATIONS += [
+    Obligation(name="decoder_mt_direct_mode_memory", src="mainside.c", func="harness_direct_mode_init", defs=["VLOOP_MEM"], unwind=5, units=[], flags=FL, timeout_q=280,
+        replace_calls=[("read_output_and_wait", "vstub_row")],
+        fp_restrict=["stream_decode_mt.function_pointer_call.1/blk_code"],
+        unwindset=[("stream_decode_mt", "^0", 3)],
+        functions=["stream_decode_mt", "threads_end", "lzma_outq_clear_cache"],
+        stubs=["pthread primitives are no-ops (main thread alone: workers are idle or absent in this state); read_output_and_wait replaced by a stub (returns OK or an error); Block decoder init records the queue/thread state at the moment it is called"],
+        desc="threaded .xz decoder falling back to single-threaded (direct) mode for a Block whose memory only fits the hard limit: the Block decoder is initialised only when the output queue is empty AND holds no cached buffer AND the worker threads are gone, so total memory = the filter memory that was compared with memlimit_stop",
+        bounds_q="queue busy/idle x cached buffer present/absent x 0-1 worker threads"),
+]
